@@ -18,7 +18,8 @@ RULE = ('(a) every LP in the bounded family (variable lengths, naming mode, obje
         'canonical multiset of normalised rows plus objective, the constraint set computed by mc.ref.mps; non-trivial = '
         'the file has a RANGES or BOUNDS entry, a two-entry line or an objective RHS. '
         '(c) every non-LP in a small family must be refused by tofile. '
-        '(d) two programs whose distinct names share a prefix longer than the MPS label.')
+        '(d) two programs whose distinct names share a prefix longer than the MPS label; (z) LPs with a vector-variable '
+        'component that has no nonzero coefficient.')
 ASSUME = [
     'format semantics are those of the fixed-format MPS description linked from doc/source/modeling.rst (lp_solve): '
     'RHS on the objective row = minus the objective constant; RANGES table for L/G/E rows; default bounds [0,+inf)',
@@ -31,19 +32,22 @@ ASSUME = [
     'violated one (the round trip of an LP that contains 0 <= -1 is therefore not asserted)',
     'the objective constant is not compared in round trips (the property exempts it; tofile does not write it)',
     'status / optimal value / op.solve status are compared only for programs whose data survive 6 significant digits '
-    'exactly; op.solve statuses of the two ops are compared only when both solve bit-identical matrices or the exact '
-    'classification says the LP is well posed (full rank, strictly feasible or strict certificate)',
+    'exactly; op.solve statuses of the two ops are compared only when both calls return (exceptions of op.solve itself - no '
+    'inequality, scalar coefficient, rank - belong to other properties) and either both solve bit-identical matrices or '
+    'the exact classification says the LP is well posed (full rank, strictly feasible or strict certificate)',
+    'the known zero-column defect is reported by the dedicated family only; in the general family it is counted as an '
+    'outcome (otherwise thousands of identical reports would truncate the enumeration)',
     'variable renaming: labels name_i are tried first, then any column permutation (bounded search)',
     'tofile on a non-LP: only "raises an exception and leaves no complete MPS file" is demanded (the doc names no exception class)',
     'palette values with |exponent| < 100 only (a 3-digit exponent does not fit the 12-character numeric field)']
-BOUNDS = {'quick': '(a) 10 length vectors, 13 constraint / 5 objective templates, singles in full, pairs over 6 templates, '
+BOUNDS = {'quick': '(a) 10 length vectors, 14 constraint / 5 objective templates, singles in full, pairs over 6 templates, '
                    'triples over 3 templates, 3 relations each, dense+sparse, 1 palette rotation (selected by VERIF_SEED), '
                    'inexact palette on singles; (b) <=3 rows x <=3 columns: all row-type vectors x all RANGES vectors '
                    '{none,-2,0,3}^m x 3 RHS patterns, 24 bound combinations per column: all pairs in every interleaving, '
                    'triples over 8 combinations in 3 interleavings, entry-presence patterns of <=9 cells x 4 layouts, '
-                   'comment/blank insertion at every line; (c) 36 non-LPs; (d) 2 programs',
-          'thorough': '(a) all 39 length vectors, singles in full with 7 rotations, pairs over all 13 templates, triples over 5 '
-                      'templates, inexact palette on singles and pairs; (b) additionally all 3^m RHS vectors x 3 objective RHS, '
+                   'comment/blank insertion at every line, second N row with entries, RANGES on N rows; (c) 66 non-LPs; (d) 4 programs; (z) 16 programs',
+          'thorough': '(a) all 39 length vectors, singles in full with 7 rotations (11 for the inexact palette), pairs over all 14 templates (2 objectives, 2 naming modes, 2 rotations), triples over 5 '
+                      'templates, inexact palette on singles and pairs; (b) additionally all 3^m RHS vectors (objective-row RHS cycling through none/-2/5), '
                       'bound triples over all 24 combinations (3 interleavings) and over 8 combinations in every '
                       'interleaving, entry-presence patterns up to 12 cells'}
 
@@ -121,8 +125,8 @@ def _cases_a(tier, seed):
                 k1, k2 = 0, (1 % nv)
                 if not (_applicable(t1, lens, k1) and _applicable(t2, lens, k2)):
                     continue
-                for o in (('lin', 'dot', 'cst') if thorough else ('lin', 'dot')):
-                    for nm in (NAMING[:3] if thorough else NAMING[:2]):
+                for o in ('lin', 'dot'):
+                    for nm in NAMING[:2]:
                         yield {'fam': 'a', 'lens': lens, 'tpl': [[t1, k1], [t2, k2]], 'obj': o, 'vn': nm[0], 'cn': nm[1],
                                'pal': 'exact', 'rots': rots[:2]}
                 if thorough and t1 in ('mat2', 'all') and t2 in ('mat2', 'scv', 'rowbc'):
